@@ -17,7 +17,7 @@ EXPLANATION = (
     "tables; (COUNT) the active-worker counter is initialised from the same thread count that sizes the stacks, is "
     "written only by the two protocol functions and no Relaxed ordering reaches the protocol atomics; (JOIN) workers "
     "are scoped threads, all joined; (STEAL) a failed local pop falls back to stealing from every other worker, never "
-    "from itself; (ONCE) each received entry is moved into exactly one visitor call or one queue push.")
+    "from itself; (ONCE) each received entry is moved into exactly one visitor call or one queue push. The quit flag is raised only by Worker::run on WalkState::Quit (who-may-call).")
 NOT_DECIDED = ["termination and exact-once delivery under every interleaving (schedules are not explored)",
                "memory-ordering sufficiency beyond 'no Relaxed on protocol atomics'"]
 
